@@ -368,8 +368,13 @@ class RuntimeState(utils.NiceRepr):
                 elif action == 'assign':
                     state[key] = value
                 elif action == 'set.add':
+                    if key not in state:
+                        # an inline directive works on a local copy of the set
+                        state[key] = set(self._global_state[key])
                     state[key].add(value)
                 elif action == 'set.remove':
+                    if key not in state:
+                        state[key] = set(self._global_state[key])
                     try:
                         state[key].remove(value)
                     except KeyError:
